@@ -117,7 +117,8 @@ def generate():
     out = ["/-", "GENERATED by harness/translate/lr1_examples.py from the real lr1.py — do not edit.",
            "Small grammars through `Grammar(...).parser()`; `exB` is `exA` after the real",
            "cached-parser serialisation (`generate_cached_parser.as_py_source` + exec).", "-/",
-           "import Emboss.Model.Lr1Valid", "import Emboss.Model.Lr1Bisim", "namespace Emboss.Lr1.Examples", ""]
+           "import Emboss.Model.Lr1Valid", "import Emboss.Model.Lr1Bisim", "import Emboss.Model.Merr",
+           "namespace Emboss.Lr1.Examples", ""]
     for name, start, texts in EXAMPLES:
         sym, code = lr1dump.Interner(), lr1dump.Interner()
         sym(lr1.END_OF_INPUT)
@@ -149,6 +150,16 @@ def generate():
             parser.mark_error(lr1dump.make_tokens(["a", "a"]), None, "unexpected end")
             parser.mark_error(lr1dump.make_tokens(["b"]) + [lr1.ANY_TOKEN], lr1.ANY_TOKEN, "trailing input")
             out.append(automaton("exM", parser, list(g.productions), False, sym, code, lr1))
+            # the same two examples through the model of mark_error: the marked table must be exM
+            # (compared entry by entry and default by default; rows are dicts)
+            anyc = sym("*ANY_TOKEN*")
+            nst, nsy = len(parser.item_sets), len(sym.names)
+            out.append("def exMarks : List ErrExample :=\n  [⟨[⟨%d, 0⟩, ⟨%d, 1⟩], .eoi, %d⟩, ⟨[⟨%d, 0⟩, ⟨%d, 1⟩], .any ⟨%d, 1⟩, %d⟩]" % (
+                sym("a"), sym("a"), code("unexpected end"), sym("b"), anyc, anyc, code("trailing input")))
+            out.append("def tableOf (B : Automaton) : List (List (Option Action)) × List (Option Nat) :=\n"
+                       "  ((List.range %d).map fun s => (List.range %d).map fun a => B.entry s a,\n"
+                       "   (List.range %d).map fun s => B.defaultErrors.lookup s)" % (nst, nsy, nst))
+            out.append("theorem exMarked : (markAll exA 60 exMarks).map tableOf = some (tableOf exM) := by decide +kernel\n")
             src = generate_cached_parser.as_py_source(parser, "example_parser")
             env = {}
             exec("from compiler.front_end import lr1\nfrom compiler.util import parser_types\n" + src, env)
